@@ -51,3 +51,32 @@ func SetDefinedClass(frame, class string) {
 	key := DefinedClass{frame: frame, class: class}
 	DefinedClassTable[key] = true
 }
+
+// LexicalFrameOf answers where an unqualified class or module name written
+// inside currentFrame is defined: the innermost enclosing namespace that
+// defines it (Outer::Inner, then Outer, then the top level), as Ruby's
+// constant lookup does. ok is false when no enclosing namespace defines it.
+func LexicalFrameOf(currentFrame string, class string) (frame string, ok bool) {
+	frame = currentFrame
+
+	for {
+		if DefinedClassTable[DefinedClass{frame: frame, class: class}] {
+			return frame, true
+		}
+
+		if frame == "" {
+			return "", false
+		}
+
+		spaces := SplitNameSpace(frame)
+		frame = ""
+
+		for idx, name := range spaces[:len(spaces)-1] {
+			if idx > 0 {
+				frame += "::"
+			}
+
+			frame += name
+		}
+	}
+}
